@@ -224,8 +224,14 @@ func check(t interface{ Fatalf(string, ...any) }, sc Scenario) {
 	}
 }
 
-func TestC19(t *testing.T) {
-	rapid.Check(t, func(t *rapid.T) { check(t, gen(t)) })
+func propC19(t *rapid.T) { check(t, gen(t)) }
+
+func TestC19(t *testing.T) { rapid.Check(t, propC19) }
+
+func FuzzC19(f *testing.F) {
+	f.Add([]byte{})
+	f.Add([]byte("\x01\x02\x03\x04\x05\x06\x07\x08"))
+	f.Fuzz(rapid.MakeFuzz(propC19))
 }
 
 // TestC19Enum enumerates every script of length <= L over a small alphabet.
